@@ -246,6 +246,12 @@ def raw_to_support(steps, energy):
 # monitor to file (support file, converge file, raw file)
 ## FIXME: 'converge' and 'raw' files are virtually unused and unsupported
 
+def _plain(x):
+  "convert numpy scalars and arrays (also nested in lists/tuples) to python"
+  if hasattr(x, 'tolist'): return x.tolist()
+  if isinstance(x, (list, tuple)): return type(x)(_plain(i) for i in x)
+  return x
+
 def write_raw_file(mon,log_file='paramlog.py',**kwds):
   """write parameter and solution trajectory to a log file in 'raw' format
 
@@ -278,10 +284,10 @@ def write_raw_file(mon,log_file='paramlog.py',**kwds):
   for variable,value in kwds.items():
     f.write('%s = %s\n' % (variable,value))# write remaining kwds as variables
   if ids is not None:
-    f.write('id = %s\n' % ids)
+    f.write('id = %s\n' % (_plain(ids),))
  #f.write('# %s\n' % energy[-1])
-  f.write('params = %s\n' % steps)
-  f.write('cost = %s\n' % energy)
+  f.write('params = %s\n' % _plain(steps))
+  f.write('cost = %s\n' % _plain(energy))
   f.close()
   return
 
